@@ -10,6 +10,7 @@ import (
 	"time"
 
 	"github.com/Workiva/frugal/compiler"
+	"github.com/Workiva/frugal/compiler/globals"
 
 	"verif/idl"
 )
@@ -32,6 +33,12 @@ type inprocStep struct {
 	Content string `json:"content,omitempty"`
 	Err     string `json:"err,omitempty"`
 	Done    bool   `json:"done,omitempty"`
+	// clock experiment: full -gen value, option set label, topic delimiter and
+	// the instant globals.Now is set to before the call
+	Gen      string `json:"gen,omitempty"`
+	SetLabel string `json:"set_label,omitempty"`
+	Delim    string `json:"delim,omitempty"`
+	Now      string `json:"now,omitempty"`
 }
 
 // inprocChild executes a script of steps inside this process.
@@ -63,7 +70,21 @@ func inprocChild(script string) int {
 						s.Err = fmt.Sprint("panic: ", r) // main.go turns these into diagnostics too
 					}
 				}()
-				if err := compiler.Compile(compiler.Options{File: s.File, Gen: s.Target, Out: s.Out, Delim: ".", Recurse: true}); err != nil {
+				gen, delim := s.Target, "."
+				if s.Gen != "" {
+					gen = s.Gen
+				}
+				if s.Delim != "" {
+					delim = s.Delim
+				}
+				if s.Now != "" {
+					// the compiler's clock: globals.Now is what generators read;
+					// Compile resets it to the wall clock when it returns
+					if t, err := time.Parse(time.RFC3339, s.Now); err == nil {
+						globals.Now = t
+					}
+				}
+				if err := compiler.Compile(compiler.Options{File: s.File, Gen: gen, Out: s.Out, Delim: delim, Recurse: true}); err != nil {
 					s.Err = err.Error()
 				}
 			}()
@@ -72,6 +93,133 @@ func inprocChild(script string) int {
 		flush() // the last flushed step is the witness if the process dies
 	}
 	return 0
+}
+
+// runChild executes steps in a child of this binary (working directory dir)
+// and returns them with their results; nil (and an INCONCLUSIVE line) when the
+// child could not be run to completion.
+func (c *c19) runChild(i int, dir string, steps []*inprocStep) []*inprocStep {
+	run := c.run
+	script := filepath.Join(dir, "script.json")
+	b, _ := json.Marshal(steps)
+	os.WriteFile(script, b, 0o644)
+	cmd := exec.Command(os.Args[0], "inproc-child", script)
+	cmd.Dir = dir
+	logf, _ := os.Create(filepath.Join(dir, "child.log"))
+	cmd.Stdout, cmd.Stderr = logf, logf
+	done := make(chan error, 1)
+	if err := cmd.Start(); err != nil {
+		run.Inconclusive("cannot start the in-process child: " + err.Error())
+		return nil
+	}
+	go func() { done <- cmd.Wait() }()
+	var cerr error
+	select {
+	case cerr = <-done:
+	case <-time.After(10 * time.Minute):
+		cmd.Process.Kill()
+		<-done
+		run.Inconclusive(fmt.Sprintf("in-process child of program %d did not finish within 10 minutes", i))
+		return nil
+	}
+	logf.Close()
+	rb, err := os.ReadFile(script + ".result")
+	var res []*inprocStep
+	if err == nil {
+		err = json.Unmarshal(rb, &res)
+	}
+	if err != nil || len(res) != len(steps) {
+		run.Inconclusive(fmt.Sprintf("in-process child of program %d left no result (%v, exit %v)", i, err, cerr))
+		return nil
+	}
+	if cerr != nil {
+		// the process died in the middle of a Compile call: C11's business (crash), say so
+		last := ""
+		for _, s := range res {
+			if !s.Done {
+				last = s.Label + " " + s.Target
+				break
+			}
+		}
+		lg, _ := os.ReadFile(filepath.Join(dir, "child.log"))
+		run.Inconclusive(fmt.Sprintf("in-process child of program %d died (%v) in step %q: %s", i, cerr, last, clip(string(lg), 400)))
+		return nil
+	}
+	return res
+}
+
+// runClock is the time dimension: the same compilation on two calendar days.
+// The CLI has no clock injection; in process the compiler's clock is
+// globals.Now.  One child per (program, target) compiles every option set of
+// the target twice (go: one rotating set in the quick tier); the only option
+// documented as dated, java generated_annotations=use, is not among the sets.
+func (c *c19) runClock(i int, p *idl.Program, src map[string]string, t target, dir string) {
+	run := c.run
+	defer os.RemoveAll(dir)
+	rootFile := rootOf(p)
+	work := filepath.Join(dir, "work-src")
+	if c.writeSources(work, src) != nil {
+		return
+	}
+	rootPath := filepath.Join(work, rootFile)
+	var steps []*inprocStep
+	n := 0
+	for si, set := range t.Sets {
+		if !run.Thorough() && t.Name == "go" && si != (i+int(run.Seed))%len(t.Sets) {
+			continue
+		}
+		delim := ""
+		if len(set.Extra) == 2 && set.Extra[0] == "-delim" {
+			delim = set.Extra[1]
+		}
+		for _, now := range []string{"2021-03-04T05:06:07Z", "2024-11-23T22:58:59Z"} {
+			n++
+			steps = append(steps, &inprocStep{Op: "compile", Label: "clock", Rev: "A", Target: t.Name, Gen: t.gen(set), SetLabel: set.Label, Delim: delim, Now: now,
+				File: rootPath, Out: filepath.Join(dir, "inproc-out", fmt.Sprint(n))})
+		}
+	}
+	res := c.runChild(i, dir, steps)
+	if res == nil {
+		return
+	}
+	var clockFirst *obs
+	for _, s := range res {
+		o := &obs{Exit: 0, Out: s.Err, Root: s.Out, Cwd: "(in process, globals.Now = " + s.Now + ")", Args: []string{"compiler.Compile", "Gen=" + s.Gen, "Recurse=true", "Out=" + s.Out, "File=" + s.File}}
+		if s.Err != "" {
+			o.Exit = 1
+		} else {
+			o.Tree, _ = hashTree(s.Out)
+			run.Add("files_hashed", len(o.Tree))
+		}
+		run.Eval(1)
+		run.Add("in_process:clock", 1)
+		if clockFirst == nil {
+			clockFirst = o
+			continue
+		}
+		first := clockFirst
+		clockFirst = nil
+		run.Distinct("clock " + s.Gen)
+		if d := compare(first, o); d != nil {
+			cls := "acceptance"
+			if d.Rel != "" {
+				cls = fileClass(s.Target, d.Rel)
+			}
+			w := map[string]interface{}{"program_sources": src, "root_file": rootFile, "target": s.Target, "gen": s.Gen,
+				"run_a": first.Cwd, "run_b": o.Cwd, "difference": d.Kind, "file": d.Rel}
+			if d.Kind == "file-content" {
+				a, _ := os.ReadFile(filepath.Join(first.Root, filepath.FromSlash(d.Rel)))
+				bb, _ := os.ReadFile(filepath.Join(o.Root, filepath.FromSlash(d.Rel)))
+				w["diff"] = firstDiff(string(a), string(bb))
+			}
+			tail := "calendar-day"
+			if s.SetLabel != "" {
+				tail += "(" + s.SetLabel + ")"
+			}
+			c.pend(&pending{Kind: "time-dependent", Target: s.Target, Label: s.SetLabel, Cls: cls, Tail: tail, W: w,
+				What: fmt.Sprintf("the same compilation (%s) on two calendar days (globals.Now = 2021-03-04 / 2024-11-23) gives different output: %s %s", s.Gen, d.Kind, d.Rel)})
+		}
+	}
 }
 
 // runInProcess performs the experiment for one program.
@@ -147,49 +295,8 @@ func (c *c19) runInProcess(i int, p *idl.Program, src map[string]string, rootPlu
 	steps = append(steps, &inprocStep{Op: "write", Path: rootPath, Content: src[rootFile]})
 	compileAll("after-edit-back", "A", []string{"go", "dart", "html", "java", "py"})
 
-	script := filepath.Join(dir, "script.json")
-	b, _ := json.Marshal(steps)
-	os.WriteFile(script, b, 0o644)
-	cmd := exec.Command(os.Args[0], "inproc-child", script)
-	cmd.Dir = dir
-	logf, _ := os.Create(filepath.Join(dir, "child.log"))
-	cmd.Stdout, cmd.Stderr = logf, logf
-	done := make(chan error, 1)
-	if err := cmd.Start(); err != nil {
-		run.Inconclusive("cannot start the in-process child: " + err.Error())
-		return
-	}
-	go func() { done <- cmd.Wait() }()
-	var cerr error
-	select {
-	case cerr = <-done:
-	case <-time.After(10 * time.Minute):
-		cmd.Process.Kill()
-		<-done
-		run.Inconclusive(fmt.Sprintf("in-process child of program %d did not finish within 10 minutes", i))
-		return
-	}
-	logf.Close()
-	rb, err := os.ReadFile(script + ".result")
-	var res []*inprocStep
-	if err == nil {
-		err = json.Unmarshal(rb, &res)
-	}
-	if err != nil || len(res) != len(steps) {
-		run.Inconclusive(fmt.Sprintf("in-process child of program %d left no result (%v, exit %v)", i, err, cerr))
-		return
-	}
-	if cerr != nil {
-		// the process died in the middle of a Compile call: C11's business (crash), say so
-		last := ""
-		for _, s := range res {
-			if !s.Done {
-				last = s.Label + " " + s.Target
-				break
-			}
-		}
-		lg, _ := os.ReadFile(filepath.Join(dir, "child.log"))
-		run.Inconclusive(fmt.Sprintf("in-process child of program %d died (%v) in step %q: %s", i, cerr, last, clip(string(lg), 400)))
+	res := c.runChild(i, dir, steps)
+	if res == nil {
 		return
 	}
 	var history []string
